@@ -67,7 +67,7 @@ def vitStr (it : VIt) : String :=
   match it.vidx, it.kit.elem with
   | some i, some k => s!"v{k}:{i}"
   | some i, none => s!"v?:{i}"
-  | none, _ => if it.vp.cell.isNone then "null" else "end"
+  | none, _ => "end"
 
 def hTail (w : HWorld) : String :=
   s!" | A={lst (sorted w.a.keys)} c{w.a.cap} B={lst (sorted w.b.keys)} c{w.b.cap}"
